@@ -970,7 +970,7 @@ package http2
 //@ # before anything else is done with it: the limit is on the list the handler gets, not on part of it
 //@ ghost sum = 0
 //@ ghost@call:(*HeaderField).KeyBytes#1 sum = sum + len(arg0.key) + len(arg0.value) + 32
-//@ loop 0: invariant acct: strm.headerListSize == old(strm.headerListSize) + sum
+//@ loop 0: invariant acct: strm.headerListSize == old(strm.headerListSize) + sum && sum >= 0
 //@ loop 0: invariant lim: sc.maxHeaderList > 0 && old(strm.headerListSize) <= sc.maxHeaderList ==> strm.headerListSize <= sc.maxHeaderList
 //@ # ---- accepted fields are well-formed (RFC 7540 8.1.2): checked where each kind of field is handed to fasthttp ----
 //@ assert@call:(*RequestHeader).SetMethodBytes#1 method: lower(k) && k == ":method" && !strm.regularSeen
@@ -988,6 +988,7 @@ package http2
 //@ ensures listsize: sc.maxHeaderList > 0 && old(strm.headerListSize) <= sc.maxHeaderList &&
 //@ |   (r0 == nil || !(iserror(r0) && errframe(r0) == FrameGoAway)) ==> strm.headerListSize <= sc.maxHeaderList
 //@ # ---- a trailer block must end the stream (RFC 7540 8.1) ----
+//@ ensures listmono: strm.headerListSize >= old(strm.headerListSize)
 //@ ensures trailers: old(strm.headersFinished) && !(hasflag(fr.flags, 1) && hasflag(fr.flags, 4)) ==> r0 != nil
 //@ # the table's backing array is the one it had or a new one: tables never come to share storage
 //@ ensures place: dynplace(sc.dec)
@@ -1022,6 +1023,8 @@ package http2
 //@ ensures dataearly: k == 0 && s0 == 2 && !old(strm.headersFinished) ==> r0 != nil && iserror(r0) && errcode(r0) == ProtocolError
 //@ ensures databody: k == 0 && s0 == 2 && old(strm.headersFinished) ==> strm.recvBody == old(strm.recvBody) + len(as(fr.fr, *Data).b)
 //@ ensures recvnn: strm.recvBody >= old(strm.recvBody)
+//@ # the header list size charged to a request only grows: trailers count against the same limit as the header block (C13)
+//@ ensures listmono: strm.headerListSize >= old(strm.headerListSize)
 //@ # every DATA frame that reaches the body accounting is credited back, accepted or not (C14, C09)
 //@ ensures datacredit: k == 0 && s0 == 2 && old(strm.headersFinished) ==> called((*serverConn).consumeRecvWindow) == 1
 //@ # a body above MaxRequestBodySize is refused with a stream error and never stored (C13)
@@ -1570,6 +1573,10 @@ package http2
 //@ assert@call:(*serverConn).writeGoAway#6 truth_lowid: sc.lastID >= maxd
 //@ modifies *sc, anybytes(), family(Stream), family(HeaderField), family(FrameHeader),
 //@ |   family(Data), family(Headers), family(Priority), family(RstStream), family(Settings), family(PushPromise), family(Ping), family(GoAway), family(WindowUpdate), family(Continuation)
+//@ # however the loop is left - asked to, connection error, reader gone - handlers that are still running are told so,
+//@ # exactly once: they would otherwise wait for ever to hand their stream back (C17)
+//@ ensures stopped: called(close.serverConn.handlerStop) == 1
+//@ route stopped C17 C13
 //@ # ---- main loop ----
 //@ loop 0: invariant ok: scOK(sc) && sc.maxRequestTimer != nil
 //@ loop 0: invariant dec: hpackOK(sc.dec)
